@@ -31,7 +31,7 @@ fn required(plan: &Plan) -> Vec<String> {
         v.push(format!("clear:{}", d.label));
         v.push(format!("merge:{}", d.label));
     }
-    for c in ["empty-first", "empty-middle", "empty-last", "wider-than-all-before", "narrower"] {
+    for c in ["empty-first", "empty-middle", "empty-last", "wider-than-all-before", "narrower", "only-empty-items-first"] {
         v.push(format!("shape:{c}"));
     }
     v
@@ -74,6 +74,18 @@ pub fn run<E: Entry>(ctx: &mut Ctx) {
     let n = ctx.rng.range(3, if ctx.tier == Tier::Miri { 8 } else { 40 });
     let mut pool: Vec<E::V> = <E::V as Val>::gen_run(&mut ctx.rng, Dom::new(kind), n);
     arrange(ctx, &mut pool);
+    // every fifth history starts with nothing but empty items (rows without cells), so that a
+    // clear / merge can happen before any column exists
+    if h % 5 == 4 {
+        if let Some(e) = (0..60).map(|_| <E::V as Val>::gen(&mut ctx.rng, Dom::new(Kind::Tiny))).find(|v| v.is_empty_container()) {
+            let k = ctx.rng.range(1, 3);
+            for _ in 0..k {
+                pool.insert(0, e.clone());
+            }
+            ctx.cover("shape:only-empty-items-first");
+        }
+    }
+    let only_empty_prefix = h % 5 == 4;
     let nforms = Live::<E>::nforms();
     let mut live = Live::<E>::new("r");
     let mut max_w = 0usize;
@@ -82,7 +94,8 @@ pub fn run<E: Entry>(ctx: &mut Ctx) {
     let mut i = 0usize;
     while i < pool.len() {
         // occasionally restart the counter through clear or merge_regions
-        if i > 0 && ctx.rng.chance(1, 14) {
+        let force = only_empty_prefix && i > 0 && i <= 3 && pool[i - 1].is_empty_container() && !pool[i].is_empty_container();
+        if i > 0 && (force || ctx.rng.chance(1, 14)) {
             if ctx.rng.chance(1, 2) {
                 if !live.clear(ctx) {
                     break;
